@@ -169,12 +169,17 @@ class C16(Prop):
         seen, items = set(), []
         for _ in range(n):
             key = self.gen_scalar(rng) if rng.chance(9, 10) else self.gen_value(rng, depth + 1, maxdepth)
-            kt = vtxt(key)
+            tags = {vtxt(key)}
             if key[0] == "f":
-                kt = "f" + g6(key[1]).lstrip("-")      # 0.0 / -0.0 and equal printed values collide
-            if kt in seen:
+                # equal printed values collapse on restore (known finding K5); msameval() also identifies a float
+                # key with the integer key of the same bit pattern (0.0 / 0, -0.0 / INT64_MIN): not C16's business
+                b = int(key[1], 16)
+                tags = {"g" + g6(key[1]).lstrip("-"), "i%d" % (b - 2 ** 64 if b >= 2 ** 63 else b)}
+                if b << 1 & (2 ** 64 - 1) == 0:
+                    tags |= {"i0", "i%d" % I64MIN}
+            if tags & seen:
                 continue
-            seen.add(kt)
+            seen |= tags
             items.append((key, self.gen_value(rng, depth + 1, maxdepth)))
         return ("m", items)
 
@@ -195,7 +200,8 @@ class C16(Prop):
                                   "rt m{%s}" % ",".join("i%d:i%d" % (n, -n if n != I64MIN else n) for n in INTS)])
         mk("floats", ["rt f%s" % fbits(x) for x in FLOATS] + ["rt f%s" % fbits(-x) for x in FLOATS])
         mk("floats-in-containers", ["rt a[%s]" % ",".join("f" + fbits(x) for x in FLOATS),
-                                    "rt m{%s}" % ",".join("f%s:f%s" % (fbits(x), fbits(-x)) for x in FLOATS[2:])])
+                                    "rt m{%s}" % ",".join("f%s:f%s" % (fbits(x), fbits(-x)) for x in FLOATS[2:]
+                                                          if x != 9.9999995e-5)])
         mk("every-byte", ["rt s%02x" % b for b in range(1, 128) if b != 13] +
            ["rt a[s%02x]" % b for b in range(1, 128) if b != 13] +
            ["rt m{s%02x:s%02x}" % (b, b) for b in range(1, 128) if b != 13])
